@@ -117,7 +117,10 @@ class Binder:
         self.A, self.rnd = A, rnd
         pool = A.species_pool()
         self.unsp = [s for s in pool if not s["nuc"] and s["A"] == 0 and A.no_abundance(s["el"])]
-        self.main = [s for s in pool if s not in self.unsp]
+        self.pool_main = [s for s in pool if s not in self.unsp]
+        # an element without a given isotope takes the longer way through the code (mean over / choice among the
+        # isotopes): it gets twice the weight of a single isotope
+        self.main = self.pool_main + [s for s in self.pool_main if not s["nuc"] and s["A"] == 0]
         rnd.shuffle(self.main)
         self.pos = 0
         self.used = set()
@@ -172,7 +175,7 @@ def build_items(shapes, tier, sd, A):
         for sp in it["bind"].values():
             seen.setdefault((sp["key"], it["natural"]), sp)
     # ... and the whole pool directly as Element(text), charged variants included
-    for sp in binder.main:
+    for sp in binder.pool_main:
         for nat in (True, False):
             sp2 = A.with_charge(sp, rnd); sp2["key"] = A.sp_key(sp2)
             seen.setdefault((sp2["key"], nat), sp2)
@@ -445,6 +448,7 @@ def run(replay=None):
         "exhaustive": True,
         "enum_classes": enum_classes,
         "species_pool": len(pool_keys), "species_covered": len(cover_sp & pool_keys),
+        "species_pool_unspecified": len(binder.unsp),       # isotope not given, element without natural abundances
         "elements_covered": len({k[1] for k in cover_sp if k[1]}),
         "feature_counts": feat,
         "tlc_refines": "ok" if not tlc_notes else "counterexample",
